@@ -225,79 +225,43 @@ def strip_cast(t):
 
 
 def check_target_count(rep, term, ent, modP, where):
-    """the count must be a function of the location values: evaluated on the finite set of result shapes"""
+    """the count must be a function of the location values the entry writes: the extracted term is evaluated on a finite family of
+    result shapes (direct @location(n), builtin, no result, and result structs with every mix of located / builtin members)"""
+    import engine_skel as K
+    ogp = E.load()
     res = ('f', ('f', ent, 'function'), 'result')
-    r = ('unwrap', res)
-    bind = ('f', r, 'binding')
-    tyinner = ('f', ('idx', ('f', modP, 'types'), ('f', r, 'ty')), 'inner')
-    # symbolic check of the struct case: max over members of (location + 1)
+
+    def loc(n):
+        return V('naga::Binding::Location', location=n, second_blend_source=False, interpolation=None, sampling=None)
+    bi = V('naga::Binding::BuiltIn', **{'0': V('naga::BuiltIn::FragDepth')})
+
+    def member(b):
+        return V('naga::StructMember', name=('some', 'm'), ty='h', binding=None if b is None else ('some', b), offset=0)
     cases = []
-    for loc in (0, 1, 3, 7):
-        cases.append((f'direct @location({loc})', {'result': ('some', V('naga::FunctionResult')), 'binding': ('some', V('naga::Binding::Location', location=loc)), 'inner': V('naga::TypeInner::Vector')}, loc + 1))
-    cases.append(('direct @builtin', {'result': ('some', V('naga::FunctionResult')), 'binding': ('some', V('naga::Binding::BuiltIn', **{'0': V('naga::BuiltIn::FragDepth')})), 'inner': V('naga::TypeInner::Scalar')}, 0))
-    cases.append(('no result', {'result': None, 'binding': None, 'inner': None}, 0))
-    cases.append(('unbound non-struct result', {'result': ('some', V('naga::FunctionResult')), 'binding': None, 'inner': V('naga::TypeInner::Vector')}, 0))
-    for label, env, want in cases:
-        def leaf(t, env=env):
+    for n in (0, 1, 3, 7):
+        cases.append((f'direct @location({n})', ('some', loc(n)), V('naga::TypeInner::Vector'), n + 1))
+    cases.append(('direct @builtin', ('some', bi), V('naga::TypeInner::Scalar'), 0))
+    cases.append(('no result', 'NONE', None, 0))
+    cases.append(('unbound non-struct result', None, V('naga::TypeInner::Vector'), 0))
+    for label, ms, want in (('struct {}', [], 0), ('struct {@location(0)}', [loc(0)], 1), ('struct {@location(0), @location(1)}', [loc(0), loc(1)], 2),
+                            ('struct {@location(0), @location(2)}', [loc(0), loc(2)], 3), ('struct {@location(3)}', [loc(3)], 4), ('struct {@builtin}', [bi], 0),
+                            ('struct {@builtin, @location(1), @builtin}', [bi, loc(1), bi], 2), ('struct {@location(2), @location(0)}', [loc(2), loc(0)], 3)):
+        cases.append((label, None, V('naga::TypeInner::Struct', members=[member(b) for b in ms], span=0), want))
+    for label, binding, inner, want in cases:
+        fr = V('naga::FunctionResult', ty='h', binding=None if binding in (None, 'NONE') else binding)
+        result = None if binding == 'NONE' else ('some', fr)
+
+        def leaf(t, result=result, inner=inner):
             if t == res:
-                return (env['result'],)
-            if t == bind:
-                return (env['binding'],)
-            if t == tyinner:
-                return (env['inner'],)
+                return (result,)
+            if t[0] == 'f' and t[2] == 'inner' and t[1][0] == 'idx' and t[1][2] == ('f', ('unwrap', res), 'ty'):
+                return (inner,)
             return None
+        ev = K.SkelEval(ogp, None, {}, '', None, extra_leaf=leaf)
         try:
-            got = Eval(leaf, lenient=False).ev(term)
+            got = ev.ev(term)
         except (Diverge, Unbound) as ex:
             got = f'<{ex}>'
         rep.check(got == want, 'C14.fragment-target-count', f'target-count:{label}', where,
-                  f'a fragment entry with {label} asks for {got} colour target(s); {want} are needed to address every @location it writes', ok_detail=f'{label} -> {got}')
-    # struct result: the term for TypeInner::Struct must be max over members of binding->count with count(location) = location + 1
-    struct_arm = None
-
-    def f(x):
-        nonlocal struct_arm
-        if x[0] == 'alt':
-            for c, v in x[1]:
-                if c == ('is', tyinner, 'naga::TypeInner::Struct'):
-                    struct_arm = v
-    E.walk(term, f)
-    ok = False
-    detail = E.show(struct_arm, maxdepth=8) if struct_arm else None
-    if struct_arm is not None:
-        t = struct_arm
-        # expected: unwrap_or(max(star over members, filter has binding -> count), 0)
-        if t[0] == 'alt' and len(t[1]) == 2 and t[1][1] == (TRUE, ('lit', 'int', '0')):
-            mx = t[1][0][1]
-            if mx[0] == 'unwrap' and mx[1][0] == 'mcall' and mx[1][2] == 'max':
-                st = mx[1][1]
-                members = ('vf', tyinner, 'naga::TypeInner::Struct', 'members')
-                if st[0] == 'star' and st[1] == members:
-                    m = ('elem', st[2], st[1])
-                    mb = ('unwrap', ('f', m, 'binding'))
-                    body = st[3]
-                    # body must be: Location -> location + 1, BuiltIn -> 0
-                    vals = {}
-                    for loc in (0, 2, 5):
-                        def leaf(tt, loc=loc):
-                            return (V('naga::Binding::Location', location=loc),) if tt == mb else None
-                        try:
-                            vals[loc] = Eval(leaf, lenient=False).ev(body)
-                        except (Diverge, Unbound) as ex:
-                            vals[loc] = f'<{ex}>'
-
-                    def leafb(tt):
-                        return (V('naga::Binding::BuiltIn', **{'0': V('naga::BuiltIn::FragDepth')}),) if tt == mb else None
-                    try:
-                        vb = Eval(leafb, lenient=False).ev(body)
-                    except (Diverge, Unbound) as ex:
-                        vb = f'<{ex}>'
-                    pos, neg = [], []
-                    for c in st[4]:
-                        E.cond_facts(c, pos, neg)
-                    only_has_binding = all(p in (('t', ('is_some', ('f', m, 'binding'))), ('is', ('f', m, 'binding'), 'Some')) for p in pos) and not neg
-                    ok = all(vals[l] == l + 1 for l in vals) and vb == 0 and only_has_binding
-                    detail = f'max over members of {vals} / builtin -> {vb}, filters {[E.show(c, maxdepth=4) for c in st[4]]}'
-    rep.check(ok, 'C14.fragment-target-count', 'C14.fragment-target-count', where,
-              f'for a result struct the target count is {detail}; expected max over the members of (location + 1) (builtins 0, empty 0): a count of located members does not make every '
-              f'@location addressable', ok_detail='struct result -> max(location + 1)')
+                  f'a fragment entry returning {label} asks for {got} colour target(s); {want} are needed to address every @location it writes (targets[i] is addressed by @location(i))',
+                  ok_detail=f'{label} -> {got}')
